@@ -23,7 +23,7 @@ def cli_run(**kwargs):
         level=kwargs.get('loglevel'),
         format='%(asctime)s:%(name)s:%(lineno)s:%(levelname)s:%(message)s')
 
-    out_filename = kwargs.get('output', kwargs['input'] + '.out')
+    out_filename = kwargs.get('output') or kwargs['input'] + '.out'
 
     blocked = not kwargs.get('no1014blocking', False)
     kwargs['out_encoding'] = 'utf8'
